@@ -412,3 +412,75 @@ def value_exprs(g, node, expr, depth=3):
     else:
       out.extend(value_exprs(g, dn, val, depth - 1))
   return out or [expr]
+
+
+def local_from(finfo, pred, default=None, which=0, elt=0):
+  """Name of the local variable bound from an expression satisfying `pred`
+  (simple assignment, with-as, for target or walrus), in source order; the
+  rules use this instead of spelling a local's name.  `default` if none."""
+  found = []
+  for n in walk_no_nested(finfo.node):
+    if isinstance(n, ast.Assign) and len(n.targets) == 1 and isinstance(
+        n.targets[0], ast.Name) and pred(n.value):
+      found.append((n.lineno, n.col_offset, n.targets[0].id))
+    elif isinstance(n, ast.Assign) and len(n.targets) == 1 and isinstance(
+        n.targets[0], ast.Tuple) and len(n.targets[0].elts) > elt and \
+        isinstance(n.targets[0].elts[elt], ast.Name) and pred(n.value):
+      # tuple unpacking: the elt-th name
+      found.append((n.lineno, n.col_offset, n.targets[0].elts[elt].id))
+    elif isinstance(n, ast.AnnAssign) and n.value is not None and isinstance(
+        n.target, ast.Name) and pred(n.value):
+      found.append((n.lineno, n.col_offset, n.target.id))
+    elif isinstance(n, ast.NamedExpr) and pred(n.value):
+      found.append((n.lineno, n.col_offset, n.target.id))
+    elif isinstance(n, ast.With):
+      for i in n.items:
+        if isinstance(i.optional_vars, ast.Name) and pred(i.context_expr):
+          found.append((n.lineno, n.col_offset, i.optional_vars.id))
+    elif isinstance(n, ast.For) and isinstance(n.target, ast.Name) and pred(
+        n.iter):
+      found.append((n.lineno, n.col_offset, n.target.id))
+  names = []
+  for _, _, x in sorted(found):
+    if x not in names:
+      names.append(x)
+  return names[which] if len(names) > which else default
+
+
+def calls(name=None, attr=None):
+  """Predicate factory for local_from: the expression is a call to ..."""
+  def pred(e):
+    if not isinstance(e, ast.Call):
+      return False
+    if name is not None and call_name(e) != name:
+      return False
+    if attr is not None and last_attr(e) != attr:
+      return False
+    return True
+  return pred
+
+
+def contains_call(name=None, attr=None):
+  inner = calls(name, attr)
+  return lambda e: any(inner(x) for x in ast.walk(e))
+
+
+def branch_must_raise(g, test_node, label):
+  """Every normal continuation of test_node's `label` branch ends in an
+  explicit raise (no path to the normal exit, transparent statements such as
+  logging in between are allowed)."""
+  first = test_node.succ(label)
+  if first is None:
+    return False
+  seen = [first] + g.reach([first], avoid_edge=lambda a, l, b: l == 'exc')
+  if any(n is g.exit for n in seen):
+    return False
+  return any(isinstance(n.ast, ast.Raise) for n in seen)
+
+
+def is_transparent(node):
+  """A CFG node that is only a logging statement (see cfg.is_log_call): it
+  has no effect any rule is about and may stand anywhere."""
+  a = node.ast
+  return node.kind == 'stmt' and isinstance(a, ast.Expr) and \
+      cfgm.is_log_call(a.value)
